@@ -502,17 +502,59 @@ func (c *Ctx) runCase(family string, i int, fn func(k *Case)) {
 		fmt.Fprintf(c.childOut, "{\"t\":\"start\",\"i\":%d}\n", i)
 	}
 	defer func() {
-		if r := recover(); r != nil {
-			st := string(debug.Stack())
-			k.Violate("panic", panicKey(r, st), fmt.Sprintf("panic: %v\n%s", r, trimStack(st)), nil)
-		}
 		atomic.AddInt64(&c.evals, 1)
 		if c.isChild {
 			fmt.Fprintf(c.childOut, "{\"t\":\"done\",\"i\":%d}\n", i)
 		}
 	}()
-	fn(k)
+	// The case runs in a goroutine of its own under a generous watchdog, so that code under test that
+	// blocks forever (a lock never released, a lost wake-up) ends in a verdict instead of hanging the
+	// check: two identical stack samples of goroutines parked in otel frames => violation "hang",
+	// anything else => inconclusive. The goroutine is abandoned either way and the pool moves on.
+	done := make(chan struct{})
+	go func() {
+		defer close(done)
+		defer func() {
+			if r := recover(); r != nil {
+				st := string(debug.Stack())
+				k.Violate("panic", panicKey(r, st), fmt.Sprintf("panic: %v\n%s", r, trimStack(st)), nil)
+			}
+		}()
+		fn(k)
+	}()
+	t := time.NewTimer(caseWatchdog)
+	defer t.Stop()
+	select {
+	case <-done:
+		return
+	case <-t.C:
+	}
+	a := BlockedOtel(AllStacks())
+	select {
+	case <-done:
+		return
+	case <-time.After(3 * time.Second):
+	}
+	full := AllStacks()
+	b := BlockedOtel(full)
+	select {
+	case <-done:
+		return
+	default:
+	}
+	if len(a) > 0 && strings.Join(a, "\n") == strings.Join(b, "\n") {
+		key := a[0]
+		if len(key) > 160 {
+			key = key[:160]
+		}
+		k.Violate("hang", family+": "+key, fmt.Sprintf("case %s/%d did not finish within %v; goroutines parked in the library (identical in two samples 3 s apart):\n%s\n\n%s", family, i, caseWatchdog, strings.Join(b, "\n"), trimStackN(full, 12000)), nil)
+	} else {
+		c.Inconclusive(fmt.Sprintf("case %s/%d did not finish within %v and no stable set of goroutines parked in the library was found", family, i, caseWatchdog))
+	}
 }
+
+// caseWatchdog bounds a single case (VERIF_CASE_WATCHDOG_S overrides the default of 300 s).
+var caseWatchdog = time.Duration(envInt("VERIF_CASE_WATCHDOG_S", 300)) * time.Second
 
 var otelFrame = regexp.MustCompile(`go\.opentelemetry\.io/otel[^\s(]*\.[A-Za-z0-9_.()*]+`)
 
